@@ -1232,6 +1232,9 @@ func (st *Runtime) evalPipeCallExpression(baseExpr reflect.Value, args CallArgs,
 	if !baseExpr.IsValid() {
 		return reflect.Value{}, errors.New("base of call expression is invalid value")
 	}
+	if baseExpr.Kind() == reflect.Func && baseExpr.IsNil() {
+		return reflect.Value{}, errors.New("call of nil function")
+	}
 	if funcType.AssignableTo(baseExpr.Type()) {
 		return baseExpr.Interface().(Func)(Arguments{runtime: st, args: args, pipedVal: pipedArg}), nil
 	}
